@@ -12,7 +12,7 @@ import (
 
 type C17Params struct {
 	Variant  string `json:"variant"`
-	Mode     string `json:"mode"`      // silence | reset | stale
+	Mode     string `json:"mode"`      // silence | reset | stale | partial
 	CutNs    int64  `json:"cut_ns"`    // silence begins
 	HealNs   int64  `json:"heal_ns"`   // reset mode: link heals at this time ...
 	Cut2Ns   int64  `json:"cut2_ns"`   // ... and is cut again at this time
@@ -21,6 +21,13 @@ type C17Params struct {
 	Replays  int    `json:"replays"` // stale mode: number of replayed/garbage datagrams
 	Garbage  bool   `json:"garbage"`
 	LatMs    int    `json:"lat_ms"`
+	// partial mode: the link dies by datagram count instead of by time - the client's datagrams
+	// from index CutC on and the server's from CutS on are lost, typically in the middle of a
+	// flight, so that a message stays partially reassembled while stale copies of the datagrams
+	// that did arrive are presented again (with fresh record numbers)
+	CutC int `json:"cut_c,omitempty"`
+	CutS int `json:"cut_s,omitempty"`
+	MTU  int `json:"mtu,omitempty"`
 }
 
 func c17Counts(tier string) (int, int) {
@@ -34,7 +41,7 @@ func c17Counts(tier string) (int, int) {
 func c17Gen(r *rand.Rand, tier string, idx int) any {
 	vs := Variants()
 	p := &C17Params{Variant: vs[r.IntN(len(vs))].Name}
-	p.Mode = []string{"silence", "silence", "reset", "stale", "stale"}[r.IntN(5)]
+	p.Mode = []string{"silence", "silence", "reset", "stale", "stale", "partial"}[r.IntN(6)]
 	p.FlightMs = []int{20, 50, 100, 300, 1000, 1000, 2000}[r.IntN(7)]
 	p.NoBack = r.IntN(4) == 0
 	p.LatMs = 1 + r.IntN(30)
@@ -50,6 +57,12 @@ func c17Gen(r *rand.Rand, tier string, idx int) any {
 	if p.Mode == "stale" {
 		p.Replays = 1 + r.IntN(40)
 		p.Garbage = r.IntN(3) == 0
+	}
+	if p.Mode == "partial" {
+		p.Replays = 1 + r.IntN(40)
+		p.CutC, p.CutS = 1+r.IntN(16), 1+r.IntN(24)
+		p.MTU = []int{0, 100, 100, 200, 400}[r.IntN(5)]
+		p.CutNs = int64(time.Millisecond) * int64(40+12*p.LatMs)
 	}
 
 	return p
@@ -109,8 +122,9 @@ func c17Run(rc *RunCtx, params any) {
 		v, _ = variantByName("12-cert")
 	}
 	rc.R.Class = v.Name + "/" + p.Mode
-	applyKnobs(&v.C, p.FlightMs, p.NoBack, 0)
-	applyKnobs(&v.S, p.FlightMs, p.NoBack, 0)
+	applyKnobs(&v.C, p.FlightMs, p.NoBack, p.MTU)
+	applyKnobs(&v.S, p.FlightMs, p.NoBack, p.MTU)
+	stale := p.Mode == "stale" || p.Mode == "partial"
 	horizon := 16 * time.Minute
 	if p.NoBack && p.FlightMs > 0 {
 		// without back-off the timer fires every interval for the whole run: keep the number of
@@ -123,6 +137,8 @@ func c17Run(rc *RunCtx, params any) {
 	switch p.Mode {
 	case "reset":
 		rules.Partitions = [][2]int64{{p.CutNs, p.HealNs}, {p.Cut2Ns, int64(2 * horizon)}}
+	case "partial":
+		rules.CutIdx = map[string]int{"c": p.CutC, "s": p.CutS}
 	default:
 		rules.Partitions = [][2]int64{{p.CutNs, int64(2 * horizon)}}
 	}
@@ -146,7 +162,7 @@ func c17Run(rc *RunCtx, params any) {
 	}
 	var staleSeq uint64
 	// stale flood: replay what the peer already sent (or garbage) at drawn times during the silence
-	if p.Mode == "stale" {
+	if stale {
 		for i := 0; i < p.Replays; i++ {
 			d := s.Ch.Draw("stale", func(r *rand.Rand) Dec {
 				return Dec{A: int64(r.IntN(2)), B: int64(r.IntN(64)), C: r.Int64N(int64(10 * time.Minute))}
@@ -271,7 +287,7 @@ func c17Run(rc *RunCtx, params any) {
 					}
 					// anything delivered after the flight's first transmission makes the
 					// schedule input-dependent, except stale input to a DTLS 1.2 endpoint
-					if !(p.Mode == "stale" && d.Injected && !is13) {
+					if !(stale && d.Injected && !is13) {
 						exact = false
 					}
 				}
@@ -309,7 +325,47 @@ func c17Run(rc *RunCtx, params any) {
 					if p.Mode == "stale" {
 						s.Probe("law-under-stale-input-checked")
 					}
+					if p.Mode == "partial" {
+						s.Probe("law-under-stale-input-with-partial-flight-checked")
+					}
 				}
+			}
+		}
+		// (3b) without new data the back-off never collapses: after the last datagram the network
+		// itself delivered (everything later is a stale copy of something already received, or
+		// silence), the gap that follows the k-th timer-driven retransmission is at least
+		// min(2^k I, 60 s) - the fastest schedule the law allows if that last datagram was new data
+		{
+			lastGenuine := time.Duration(-1)
+			for _, d := range n.Deliv {
+				if d.Ep == ep && !d.Injected && d.At > lastGenuine {
+					lastGenuine = d.At
+				}
+			}
+			var timers []time.Duration
+			for _, b := range bs {
+				if b.cause == "timer" && b.at > lastGenuine {
+					timers = append(timers, b.at)
+				}
+			}
+			floor := I
+			for k := 1; k < len(timers); k++ {
+				// timers[0] is a retransmission, except when nothing was ever delivered: then it is
+				// the spontaneous first transmission of the first flight and the first gap is I
+				if !p.NoBack && !(k == 1 && lastGenuine < 0) {
+					floor *= 2
+					if floor > 60*time.Second {
+						floor = 60 * time.Second
+					}
+				}
+				if got := timers[k] - timers[k-1]; got < floor {
+					rc.Violate("backoff-collapsed", "%s (%s, I=%v, backoff=%v): nothing new arrived after t=%v, yet timer retransmission #%d at t=%v follows #%d after %v; the law allows no less than %v there", ep, p.Mode, I, !p.NoBack, lastGenuine, k+1, timers[k], k, got, floor)
+
+					goto done
+				}
+			}
+			if len(timers) > 2 {
+				s.Probe("backoff-floor-checked")
 			}
 		}
 		// (5) no storm: emissions bounded by timer slots + deliveries
